@@ -30,7 +30,7 @@ from ..cfg import cfg_of
 from ..flow import describe_path, find_path as flow_find_path, no_exc as _no_exc
 from ..linexpr import Env, Lin, NONE, Seq, fresh, local_edges, loop_heads, paths_from, run_steps, segments
 from ..model import AnchorError, Func, UnknownIdiom, dotted, short, unparse
-from .c07_helpers import (ASGI, BUDGET, WSGI, Inliner, Verdicts, asgi_constructor, asgi_drained, asgi_initial_position, asgi_keys, asgi_loops,
+from .c07_helpers import (ASGI, BUDGET, WSGI, Inliner, Verdicts, asgi_constructor, asgi_drained, asgi_indexing, asgi_initial_position, asgi_keys, asgi_loops,
                           asgi_positions, lazy_wrapping, require_attrs, run_steps_inl)
 from .common import ancestors, enclosing_map, implied, walk_self
 
@@ -1299,6 +1299,8 @@ def r5_termination(run):
         f = run.project.func('%s.%s' % (ASGI, name))
         asgi_loops(run, v, f, mode='termination')
         asgi_keys(run, v, f)
+    for f in sorted(run.project.cls(ASGI).methods.values(), key=lambda f: f.qual):
+        asgi_indexing(run, v, f)
     asgi_constructor(run, v)
     v.flush()
 
